@@ -39,6 +39,9 @@ NOT_DECIDED = ['ties between coinciding state events of one kind (two tempos / t
                'overlapping paints of tied duplicate notes of different lengths in the frame rolls are accepted by the TIE_ALLOW table (reason recorded), not derived',
                'floating-point summation order']
 ASSUMPTIONS = ['quantized inputs of extractors were produced by quantize_note_sequence (single writer of quantization_info, checked)']
+# rules whose verdict does not depend on how the statements are arranged (semantic analyses); all other rules are shape rules:
+# when one of those fails in a function that was restructured relative to reference/signatures.json the verdict is "cannot decide"
+ROBUST = ('ORD/traversal', 'TIE')
 FLOORS = {'ORD/traversal': 30, 'ORD/sorted-traversal': 14, 'ORD/positional': 10, 'TIE/note-sort': 10}
 
 SCOPE = [
